@@ -76,7 +76,7 @@ func extractTables(prog *sym.Program, pkg string) (*curveTables, *sym.Report, er
 		ct.L8, ok3 = termsToUints(e.GlobalValue(sym.ModPath+"/"+pkg, "linearToEncoded8LUT"))
 		ct.L16, ok4 = termsToUints(e.GlobalValue(sym.ModPath+"/"+pkg, "linearToEncoded16LUT"))
 		if !(ok1 && ok2 && ok3 && ok4) {
-			ferr = fmt.Errorf("%s: tables are not concrete slices after construction", pkg)
+			ferr = fmt.Errorf("%s: tables are not concrete slices or arrays after construction", pkg)
 		} else if len(ct.T8) != 256 || len(ct.T16) != 65536 || len(ct.L8) != 512 || len(ct.L16) != 65536 {
 			ferr = fmt.Errorf("%s: table sizes %d/%d/%d/%d after first use, want 256/65536/512/65536 (a table was not built or has the wrong size)", pkg, len(ct.T8), len(ct.T16), len(ct.L8), len(ct.L16))
 		}
